@@ -914,5 +914,20 @@ def strip(hist):
     return [dict((k, v) for k, v in a.items() if k != 'exp') for a in hist]
 
 
+def run_with_core(ctx):
+    """the MC_udf part above, plus the UDF images of the core corpus (boundary witnesses for File
+    Identifier packing, random histories with reopen generations) judged by the same image clauses"""
+    run(ctx)
+    own = dict(ctx.coverage)
+    import check_core
+    check_core.run_for('C10')(ctx)
+    # keep this check's own description; add up the measured counts
+    for k in ('states', 'transitions', 'traces_validated_against_impl'):
+        ctx.coverage[k] = int(own.get(k, 0) or 0) + int(ctx.coverage.get(k, 0) or 0)
+    for k in ('rule', 'bounds', 'exhaustive'):
+        if k in own:
+            ctx.coverage[k] = own[k]
+
+
 if __name__ == '__main__':
-    sys.exit(checklib.main('C10', 'model_checking', run))
+    sys.exit(checklib.main('C10', 'model_checking', run_with_core))
